@@ -56,6 +56,14 @@ def cases(tier, seed):
             for feats in (True, False):
                 for path in PATHS:
                     out.append({"n": n, "angle": ai, "axis": 1, "pos": "frac", "features": feats, "path": path})
+    # where the table comes from: positions held in Fortran order (every table that was itself read from a frame or a file,
+    # or was filtered / sorted), or as a strided view of a wider array - saving a loaded table again is the usual workflow
+    for n in (3, 5, 6, 7, 10, 11, 12):
+        for ai in range(len(ANGLES)):
+            for feats in (True, False):
+                for origin in ("reloaded", "fortran", "strided", "sorted"):
+                    for path in ("dataframe", "parquet", "csv:None", "file:.csv"):
+                        out.append({"n": n, "angle": ai, "axis": 1, "pos": "frac", "features": feats, "path": path, "origin": origin})
     # tables written by other tools (or re-ordered by a join / a spreadsheet): the coordinate columns are found by name,
     # whatever their order in the table, and may carry custom names
     for order in ("canonical", "xyz", "sorted", "interleaved", "features-first", "reversed"):
@@ -131,7 +139,19 @@ def _table(case):
             "name": pl.Series([None if i == 1 else f"m{i}" for i in range(n)], dtype=pl.Utf8),
             "flag": pl.Series([None if i == 2 else bool(i % 2) for i in range(n)], dtype=pl.Boolean),
         })
-    return Molecules(pos, rot, features=feats)
+    origin = case.get("origin", "fresh")
+    if origin == "fortran":
+        pos = np.asfortranarray(pos.astype(np.float32))
+    elif origin == "strided":
+        wide = np.zeros((n, 7), dtype=np.float32)
+        wide[:, 1:6:2] = pos
+        pos = wide[:, 1:6:2]
+    m = Molecules(pos, rot, features=feats)
+    if origin == "reloaded":
+        m = Molecules.from_dataframe(m.to_dataframe())
+    elif origin == "sorted":
+        m = m.sort("score") if feats is not None else m.filter(pl.repeat(True, n, eager=True))
+    return m
 
 
 def run_case(case):
@@ -147,7 +167,7 @@ def run_case(case):
     tmp = tempfile.mkdtemp(prefix="vfc13-", dir="/dev/shm" if os.path.isdir("/dev/shm") else None)
     viol = []
     kind = path.split(":")[0]
-    sig = lambda what: f"{ID}|{path if kind != 'csv' else 'csv'}|{what}"  # noqa
+    sig = lambda what: f"{ID}|{path if kind != 'csv' else 'csv'}|{what}" + (f"|origin={case['origin']}" if "origin" in case else "")  # noqa
     try:
         prec = None
         exact = True
